@@ -376,7 +376,7 @@ func runProperty(repo, specs, prop, tier, out string) int {
 		bcStart := time.Now()
 		nFn, nObls, nSat, nRepro := 0, 0, 0, 0
 		for _, fr := range runs {
-			if fr.x.FC == nil || fr.x.FC.Trusted || time.Since(bcStart) > 15*time.Minute {
+			if fr.x.FC == nil || fr.x.FC.Trusted || time.Since(bcStart) > 4*time.Minute {
 				continue
 			}
 			if len(fr.x.loops) == 0 {
